@@ -185,6 +185,10 @@ def run_case(ctx, i, rng):
                         key = f"{short}:{ent.kind}:" + ("missing:" + "+".join(kinds_m) if miss else where) + f":{ftag}:query-at-{q.ctx}"
                         if sc is not None and any(v == "private" for m in use_closure(sc) + w.mods for v in m.reexport_vis.values()) and not decoy:
                             key = "use-tree:private-statement-on-use-associated-name-ignored"
+                        wr = {n_.lower() for s_ in w.scopes for u_ in s_.uses for pair in (getattr(u_, "renames", None) or []) for n_ in pair}
+                        if ent.name.lower() in wr:
+                            # the entity is the remote or local side of a `use m, local => remote` without ONLY (C05 findings of that name)
+                            key = "use-tree:rename-without-only"
                         res.violation(key, f"{short} on '{ent.name}' ({ent.kind}) from {q.file}:{q.line}:{q.col} ({q.ctx}): missing {sorted(miss)[:4]} extra {sorted(extra)[:4]} (expected {len(want)} occurrences)",
                                       dict(wit, missing=sorted(miss), extra=sorted(extra)))
                         broke = True
